@@ -523,7 +523,7 @@ func runC08(a *Args) error {
 	rng := NewRng(a.Seed)
 	prelude := "From NV Require Import Base C08_Model.\nOpen Scope string_scope.\n"
 	w := NewCaseWriter(a, "C08", prelude, "case", "run")
-	w.Rule = "OCI: documents of 1-4 statements over a scope alphabet of nested / sibling / port-qualified / case-variant / near-identical repository paths (with and without a wildcard statement, plus documents violating one validity rule), every permutation of the statements, references = every listed scope, prefix / extension / sibling / case / port variants of listed scopes, unlisted scopes, tag-only, tag+digest, several '@', malformed; blob: documents over a name alphabet (case / blank-padded / prefix variants), every permutation, queries by listed / near-miss / blank (ASCII and Unicode white space) names and for the global statement; fuzzed registry/repository strings against a wildcard-only document. After the first selection the driver writes through the statement it received (all slices, override map, scalar fields, appends) and selects again; for accepted documents a third of the cases also run SkipVerify / Verify / VerifyBlob with a genuine envelope. non-trivial = the query is not refused as malformed and (the document has >= 2 statements or the result was written through); distinct = distinct (document order, queries, writes) tuples; ADDED: empty slices / maps of the document as nil or as empty non-nil objects (a third of all cases + a fixed family); the matching scope at every position of a 3-4 scope statement x every permutation of the document; rarely used legal registry / repository / digest syntax; HISTORIES: one long-lived document object and one long-lived verifier answering 5-8 calls in sequence whose expected answers differ (same registry / other repository, wildcard, other registry, refused, back), each step emitted as its own case judged on its own input; BLANK-NAMED: blob documents accepted by Validate() that contain a statement whose name is white space only, asked for exactly that name (witness of C08_blob_name_full_refuted: refused with error 4)"
+	w.Rule = "OCI: documents of 1-4 statements over a scope alphabet of nested / sibling / port-qualified / case-variant / near-identical repository paths (with and without a wildcard statement, plus documents violating one validity rule), every permutation of the statements, references = every listed scope, prefix / extension / sibling / case / port variants of listed scopes, unlisted scopes, tag-only, tag+digest, several '@', malformed; blob: documents over a name alphabet (case / blank-padded / prefix variants), every permutation, queries by listed / near-miss / blank (ASCII and Unicode white space) names and for the global statement; fuzzed registry/repository strings against a wildcard-only document. After the first selection the driver writes through the statement it received (all slices, override map, scalar fields, appends) and selects again; for accepted documents a third of the cases also run SkipVerify / Verify / VerifyBlob with a genuine envelope. non-trivial = the query is not refused as malformed and (the document has >= 2 statements or the result was written through); distinct = distinct (document order, queries, writes) tuples; ADDED: empty slices / maps of the document as nil or as empty non-nil objects (a third of all cases + a fixed family); the matching scope at every position of a 3-4 scope statement x every permutation of the document; rarely used legal registry / repository / digest syntax; HISTORIES: one long-lived document object and one long-lived verifier answering 5-8 calls in sequence whose expected answers differ (same registry / other repository, wildcard, other registry, refused, back), each step emitted as its own case judged on its own input; BLANK-NAMED: blob documents accepted by Validate() that contain a statement whose name is white space only, asked for exactly that name (witness of C08_blob_name_full_refuted: refused with error 4); NEAR-VALID (Go-side oracle, one id per document): 21 documents breaking exactly one validity rule (two / three wildcard statements with different content, the same scope in two / three statements, wildcard mixed with a scope, duplicate names, two / three global blob statements), EVERY order of their statements, listed / unlisted / extension / malformed references resp. every name, the global query and an unknown name: either Validate() / NewVerifierWithOptions refuses the document, or every selection (and SkipVerify / Verify / VerifyBlob) is the same under every permutation and obeys the exact-match / unique-wildcard / unique-name / unique-global rule; an accepted document with order-dependent selection is an implementation violation carrying the document, the two orders and the query"
 	w.Assumptions = []string{
 		"error classes of the selection functions are recognised from stable tokens of their messages",
 		"the statement the verifier used is recognised from the first trust store of type ca it asks the injected trust store for (x509 signing scheme, genuine JWS envelope); statements are given distinct first ca stores",
@@ -728,7 +728,7 @@ func runC08(a *Args) error {
 					continue
 				}
 				c := &caseD{Family: fam, Blob: blob, Doc: d, Q1: qs[k], Q2: qs[k+1], Ver: vi != nil, Rep: rep,
-					Hist: fmt.Sprintf("step %d of %d on one document object and one verifier; calls so far: %v", k+1, n, qs[:k+2]),
+					Hist:     fmt.Sprintf("step %d of %d on one document object and one verifier; calls so far: %v", k+1, n, qs[:k+2]),
 					Accepted: in.accepted, Same: same[k+1]}
 				if k < len(scripts) {
 					c.WS = scripts[k]
@@ -1232,6 +1232,274 @@ func runC08(a *Args) error {
 					runCase(&caseD{Family: "blank-named", Blob: true, Doc: d, Q1: q, Q2: queryD{"name", bn}, Rep: pi == 1, Ver: true})
 				}
 			}
+		}
+	}
+	// ---- family 9: NEAR-valid documents, judged on the Go side ----
+	// Documents that break exactly one validity rule (two wildcard statements with different
+	// content, the same scope in two statements, a wildcard mixed with a scope, duplicate
+	// names, two global blob statements), every order of their statements. Oracle: EITHER the
+	// real Validate() / NewVerifierWithOptions refuses the document, OR - if the code accepts
+	// it - every selection is the same under every permutation of the statements and obeys the
+	// exact-match / unique-wildcard (unique name / unique global) rule. The Coq-side oracle
+	// cannot see this: spec_ok is conditional on C08_Model.valid_doc, which such a document
+	// does not have; a validation that lets it through is a broken premise of C08_order.
+	{
+		const pA, pAA, pABC, pZ = "reg.io/a/b", "reg.io/a", "reg.io/a/b/c", "reg.io/zzz"
+		levelsNV := []string{"strict", "permissive", "audit", "strict"}
+		so := func(name string, k int, scopes ...string) stmtD {
+			return stmtD{Name: name, Scopes: scopes, Level: levelsNV[k%4], Stores: []string{fmt.Sprintf("ca:k%d", k)}, Ids: []string{"*"}}
+		}
+		sb := func(name string, k int, global bool) stmtD {
+			return stmtD{Name: name, Level: levelsNV[k%4], Stores: []string{fmt.Sprintf("ca:k%d", k)}, Ids: []string{"*"}, Global: global}
+		}
+		type nearValid struct {
+			what string
+			blob bool
+			d    []stmtD
+		}
+		docs := []nearValid{
+			{"two wildcard statements", false, []stmtD{so("w1", 0, "*"), so("w2", 1, "*")}},
+			{"two wildcard statements, one of level skip", false, []stmtD{so("w1", 0, "*"), {Name: "w2", Scopes: []string{"*"}, Level: "skip"}}},
+			{"two wildcard statements and an exact one", false, []stmtD{so("e0", 0, pA, pAA), so("w1", 1, "*"), so("w2", 2, "*")}},
+			{"two wildcard statements and two exact ones", false, []stmtD{so("e0", 0, pA), so("e1", 1, pABC), so("w1", 2, "*"), so("w2", 3, "*")}},
+			{"three wildcard statements", false, []stmtD{so("w1", 0, "*"), so("w2", 1, "*"), so("w3", 2, "*")}},
+			{"the same scope in two statements", false, []stmtD{so("e0", 0, pA), so("e1", 1, pA)}},
+			{"the same scope in two statements at different positions, with a wildcard statement", false, []stmtD{so("e0", 0, pA, pAA), so("e1", 1, pABC, pA), so("w", 2, "*")}},
+			{"the same scope in three statements", false, []stmtD{so("e0", 0, pA), so("e1", 1, pAA, pA), so("e2", 2, pA, pABC)}},
+			{"wildcard mixed with a scope (wildcard first)", false, []stmtD{so("m", 0, "*", pA), so("e", 1, pABC)}},
+			{"wildcard mixed with a scope (wildcard last) and a wildcard statement", false, []stmtD{so("m", 0, pA, "*"), so("w", 1, "*")}},
+			{"wildcard mixed with a scope that another statement lists", false, []stmtD{so("m", 0, "*", pA), so("e", 1, pA)}},
+			{"wildcard twice in one statement", false, []stmtD{so("m", 0, "*", "*"), so("e", 1, pA)}},
+			{"a scope twice in one statement", false, []stmtD{so("e", 0, pA, pA), so("w", 1, "*")}},
+			{"duplicate statement names", false, []stmtD{so("p", 0, pA), so("p", 1, pABC), so("w", 2, "*")}},
+			{"duplicate statement names, one of them the wildcard statement", false, []stmtD{so("p", 0, pA), so("p", 1, "*")}},
+			{"two global statements", true, []stmtD{sb("g1", 0, true), sb("g2", 1, true)}},
+			{"two global statements and a named one", true, []stmtD{sb("a", 0, false), sb("g1", 1, true), sb("g2", 2, true)}},
+			{"three global statements", true, []stmtD{sb("g1", 0, true), sb("g2", 1, true), sb("g3", 2, true)}},
+			{"duplicate statement names", true, []stmtD{sb("n", 0, false), sb("n", 1, false)}},
+			{"duplicate statement names, one of them global", true, []stmtD{sb("n", 0, false), sb("n", 1, true), sb("m", 2, false)}},
+			{"duplicate statement names around another statement", true, []stmtD{sb("n", 0, false), sb("m", 1, true), sb("n", 2, false), sb("k", 3, false)}},
+		}
+		has := func(xs []string, x string) bool {
+			for _, y := range xs {
+				if y == x {
+					return true
+				}
+			}
+			return false
+		}
+		// rule: does the answer (v == nil: refused) to q on document d obey the selection rule?
+		rule := func(d []stmtD, q queryD, v *stmtD) string {
+			count := func(f func(s stmtD) bool) int {
+				n := 0
+				for _, s := range d {
+					if f(s) {
+						n++
+					}
+				}
+				return n
+			}
+			switch q.Kind {
+			case "oci":
+				i := strings.LastIndex(q.Arg, "@")
+				if i < 0 {
+					if v != nil {
+						return "a statement was handed out for a reference without '@'"
+					}
+					return ""
+				}
+				path := q.Arg[:i]
+				exact := count(func(s stmtD) bool { return has(s.Scopes, path) && !has(s.Scopes, "*") })
+				wild := count(func(s stmtD) bool { return has(s.Scopes, "*") })
+				switch {
+				case v == nil && (exact > 0 || wild > 0):
+					return "refused although a statement lists the path or the wildcard"
+				case v == nil:
+					return ""
+				case has(v.Scopes, path) && !has(v.Scopes, "*"):
+					if exact != 1 {
+						return fmt.Sprintf("%d statements list the path %q: the statement applied is not unique", exact, path)
+					}
+				case has(v.Scopes, "*"):
+					if exact > 0 {
+						return "the wildcard statement was applied although a statement lists the path"
+					}
+					if wild != 1 {
+						return fmt.Sprintf("%d wildcard statements: the statement applied is not unique", wild)
+					}
+				default:
+					return "the statement applied lists neither the path nor the wildcard"
+				}
+			case "name":
+				n := count(func(s stmtD) bool { return s.Name == q.Arg })
+				switch {
+				case v == nil && n > 0:
+					return "refused although a statement has that name"
+				case v != nil && v.Name != q.Arg:
+					return "the statement applied has another name"
+				case v != nil && n != 1:
+					return fmt.Sprintf("%d statements are named %q: the statement applied is not unique", n, q.Arg)
+				}
+			case "global":
+				n := count(func(s stmtD) bool { return s.Global })
+				switch {
+				case v == nil && n > 0:
+					return "refused although a statement is global"
+				case v != nil && !v.Global:
+					return "the statement applied is not global"
+				case v != nil && n != 1:
+					return fmt.Sprintf("%d global statements: the statement applied is not unique", n)
+				}
+			}
+			return ""
+		}
+		for _, nv := range docs {
+			var qs []queryD
+			if nv.blob {
+				seen := map[string]bool{}
+				for _, s := range nv.d {
+					if !seen[s.Name] {
+						seen[s.Name] = true
+						qs = append(qs, queryD{"name", s.Name})
+					}
+				}
+				qs = append(qs, queryD{"global", ""}, queryD{"name", "zz"})
+			} else {
+				for _, p := range []string{pA, pAA, pABC, pZ, pABC + "/d"} {
+					qs = append(qs, queryD{"oci", p + "@" + dig1})
+				}
+				qs = append(qs, queryD{"oci", pA + ":v1"})
+			}
+			// the model's view of the same documents (two orders), as ordinary cases
+			for _, q := range qs {
+				runCase(&caseD{Family: "near-valid", Blob: nv.blob, Doc: nv.d, Q1: q, Q2: q, Ver: true})
+			}
+			rev := make([]stmtD, len(nv.d))
+			for i := range nv.d {
+				rev[len(nv.d)-1-i] = nv.d[i]
+			}
+			for _, q := range qs {
+				runCase(&caseD{Family: "near-valid", Blob: nv.blob, Doc: rev, Q1: q, Q2: q, Ver: true})
+			}
+			// the Go-side oracle: one id per document
+			my := id
+			id++
+			if !w.Want(my) {
+				continue
+			}
+			if ve == nil {
+				ve = newVerEnv()
+			}
+			type answer struct {
+				doc      []stmtD
+				sel, ver []string // per query; nil = the document was refused at that level
+			}
+			var answers []answer
+			var reported bool
+			var ruleWhat string // first breach of the selection rule on an accepted order
+			var ruleDesc map[string]any
+			breach := func(what string, desc map[string]any) {
+				if ruleWhat == "" {
+					ruleWhat, ruleDesc = what, desc
+				}
+			}
+			report := func(what string, desc map[string]any) {
+				if reported {
+					return
+				}
+				reported = true
+				desc["family"] = "near-valid"
+				desc["defect"] = nv.what
+				desc["blob_document"] = nv.blob
+				w.ImplViolation(my, what, desc, "near-valid-accepted")
+			}
+			var panicked any
+			func() {
+				defer func() {
+					if r := recover(); r != nil {
+						panicked = r
+					}
+				}()
+				for _, p := range permutations(len(nv.d)) {
+					d := permute(nv.d, p)
+					a := answer{doc: d}
+					in := newInstance(nv.blob, d, false)
+					if in.accepted {
+						for _, q := range qs {
+							h, err := in.sel(q)
+							if err != nil {
+								a.sel = append(a.sel, fmt.Sprintf("error %d", errCode(err)))
+								if why := rule(d, q, nil); why != "" {
+									breach("document accepted by Validate(): "+why, map[string]any{"document": d, "query": q, "result": Short(err.Error(), 120)})
+								}
+								continue
+							}
+							v := h.view()
+							a.sel = append(a.sel, "statement "+stmtTerm(v))
+							if why := rule(d, q, &v); why != "" {
+								breach("document accepted by Validate(): "+why, map[string]any{"document": d, "query": q, "result": v})
+							}
+						}
+					}
+					store := NewMockStore()
+					opts := verifier.VerifierOptions{RevocationCodeSigningValidator: ve.rev.Validator()}
+					if nv.blob {
+						opts.BlobTrustPolicy = buildBlob(d, false)
+					} else {
+						opts.OCITrustPolicy = buildOCI(d, false)
+					}
+					if v, err := verifier.NewVerifierWithOptions(store, opts); err == nil {
+						vi := &verInst{v: v, store: store, blob: nv.blob}
+						for _, q := range qs {
+							sv, _, vd := ve.observeOn(vi, q)
+							a.ver = append(a.ver, fmt.Sprintf("skipverify=%d verify=%s", sv, vd))
+						}
+					}
+					answers = append(answers, a)
+				}
+			}()
+			if panicked != nil {
+				w.ImplViolation(my, fmt.Sprintf("panic on a near-valid document: %v", panicked), map[string]any{"family": "near-valid", "defect": nv.what, "document": nv.d}, "panic")
+				continue
+			}
+			accSel, accVer := 0, 0
+			var firstSel, firstVer *answer
+			for i := range answers {
+				a := &answers[i]
+				if a.sel != nil {
+					accSel++
+					if firstSel == nil {
+						firstSel = a
+					}
+					for k := range qs {
+						if a.sel[k] != firstSel.sel[k] {
+							report("document accepted by Validate(), but the statement selected depends on the order of its statements",
+								map[string]any{"document_order_A": firstSel.doc, "document_order_B": a.doc, "query": qs[k], "result_A": firstSel.sel[k], "result_B": a.sel[k]})
+						}
+					}
+				}
+				if a.ver != nil {
+					accVer++
+					if firstVer == nil {
+						firstVer = a
+					}
+					for k := range qs {
+						if a.ver[k] != firstVer.ver[k] {
+							report("document accepted by NewVerifierWithOptions, but what the verifier applies depends on the order of its statements",
+								map[string]any{"document_order_A": firstVer.doc, "document_order_B": a.doc, "query": qs[k], "result_A": firstVer.ver[k], "result_B": a.ver[k]})
+						}
+					}
+				}
+			}
+			// order dependence (document + two orders) is reported in preference to the rule breach
+			if !reported && ruleWhat != "" {
+				report(ruleWhat, ruleDesc)
+			}
+			kind := "oci"
+			if nv.blob {
+				kind = "blob"
+			}
+			w.Count("near_valid", fmt.Sprintf("%s: %s: orders=%d accepted by Validate=%d by NewVerifierWithOptions=%d", kind, nv.what, len(answers), accSel, accVer))
 		}
 	}
 	_ = sort.Strings
